@@ -50,6 +50,7 @@ nothing changed) is recorded as drift, not as a violation.
 from __future__ import annotations
 
 import calendar
+import hashlib
 import json
 import os
 import random
@@ -154,16 +155,19 @@ def unjson(st: dict) -> dict:
     return st
 
 
-BOTH = ('lenient', 'strict')
+OOR_CMDS = ('store', 'fetch', 'copy', 'move')     # commands with latitude point L1
+REC_CMDS = ('store', 'append')                    # ... L2
 
 
-def cfg_text(*, kw: bool, latoor=BOTH, latrec=BOTH, appendkw=('keep', 'drop'), inits,
-             maxcmds: int, maxuid: int, profile: str, twolevel: bool, props: bool) -> str:
+def cfg_text(*, kw: bool, oor_lenient=OOR_CMDS, oor_strict=OOR_CMDS, rec_lenient=REC_CMDS,
+             rec_strict=REC_CMDS, appendkw=('keep', 'drop'), inits, maxcmds: int,
+             maxuid: int, profile: str, twolevel: bool, props: bool) -> str:
     def sset(xs):
         return '{' + ', '.join('"%s"' % x for x in sorted(xs)) + '}'
     lines = ['SPECIFICATION Spec', 'CONSTANTS',
              f'  KwPermitted = {"TRUE" if kw else "FALSE"}',
-             f'  LatOor = {sset(latoor)}', f'  LatRec = {sset(latrec)}',
+             f'  OorLenient = {sset(oor_lenient)}', f'  OorStrict = {sset(oor_strict)}',
+             f'  RecLenient = {sset(rec_lenient)}', f'  RecStrict = {sset(rec_strict)}',
              f'  AppendKw = {sset(appendkw)}',
              f'  Inits = {sset(inits)}', f'  MaxCmds = {maxcmds}',
              f'  MaxUid = {maxuid}', f'  Profile = "{profile}"',
@@ -848,13 +852,21 @@ def make_report(ex: Exec, labels: list, cmds: list, prev: dict, cands: list,
     st, discs = cands[order[0]], results[order[0]]
     sig = signature(ex, prev, st, discs, labels[-1])
     latitude = False
-    if sig is None and phase == 'sim' and st['last']['choice'] and st['last']['cond'] == 'OK':
-        # the simulated sub-model fixed the lenient resolution of a latitude point at
-        # this step; if the server took the other RFC-permitted one (refusal, nothing
-        # changed) it is not a violation - but the behaviour cannot be followed further
-        obs_refused = all(d[0] == 'cond' for d in ex.last_obs_discs)
-        if obs_refused and ex.last_obs.cond in ('NO', 'BAD') and not ex.last_obs.events \
-                and not ex.compare_dumps(prev, ex.dump(prev['sel'])):
+    if sig is None and phase == 'sim' and st['last']['choice']:
+        # The simulated sub-model resolved a latitude point at this step one way; the
+        # server may take the other RFC-permitted way.  (Only a server that does not
+        # resolve the point the same way every time gets here: the sub-model enables
+        # exactly the resolutions the exhaustive part saw, per command kind.)
+        obs, odiscs = ex.last_obs, ex.last_obs_discs
+        if st['last']['cond'] == 'OK':
+            # model went on, server refused: fine if nothing changed
+            if odiscs and all(d[0] == 'cond' for d in odiscs) and obs.cond in ('NO', 'BAD') \
+                    and not obs.events:
+                dd = ex.compare_dumps(prev, ex.dump(prev['sel']))
+                latitude = not dd or excusable(ex, prev, prev, dd) is not None
+        elif obs.cond == 'OK':
+            # model refused, server went on: the lenient successor is not in this
+            # behaviour, so the step cannot be judged here - recorded, not a verdict
             latitude = True
     what = (f'[{ex.bname}] step {len(labels)} {labels[-1]} = {cmds[-1][:100]!r}: '
             + '; '.join(d[1] for d in discs[:4]))
@@ -935,6 +947,7 @@ def _graph_task(task) -> dict:
             return res
         res['dst'] = good[0]
         res['choice'] = nodes[good[0]]['last']['choice']
+        res['cmd'] = nodes[good[0]]['last']['cmd']
         res['nontrivial'] = res['nontrivial'] or bool(nodes[good[0]]['last']['addr']
                                                       or nodes[good[0]]['last']['pairs'])
         return res
@@ -949,6 +962,22 @@ def _graph_task(task) -> dict:
 def _sim_task(task) -> dict:
     bname, bi, seedkey, end_only = task
     steps = _G['behaviours'][bi]
+    res = _run_behaviour(bname, steps, seedkey, end_only)
+    if end_only and any(r['sig'] is None and not r['latitude'] for r in res['reports']):
+        # found without intermediate dumps: run it again with a dump after every step, so
+        # that the failure is attributed to the step that causes it (and to the known
+        # finding that explains it, if any).  If nothing shows up then, the original
+        # report stands: it is only visible when nobody looks in between.
+        again = _run_behaviour(bname, steps, seedkey, False)
+        again['steps'] += res['steps']
+        again['full'] += res['full']
+        if again['reports']:
+            return again
+        res['only_without_intermediate_dumps'] = True
+    return res
+
+
+def _run_behaviour(bname: str, steps: list, seedkey: str, end_only: bool) -> dict:
     init = steps[0][1]
     ex = Exec(bname, init, random.Random(seedkey))
     ex.metas = []
@@ -1093,8 +1122,22 @@ class Driver:
             pairs = [(n, l) for n in level for l in labels_of[n]]
             reachable += len(pairs)
             if limit_pairs is not None and depth == self.maxcmds - 1 and len(pairs) > limit_pairs:
-                pairs = self.rng.sample(pairs, limit_pairs)
-                stats['last_level_sampled'] = limit_pairs
+                # seeded sample of the last level; a few pairs of every (latitude point,
+                # command kind) first, so that the backend's resolutions get measured
+                by_key: dict = {}
+                for n, l in pairs:
+                    for d in (d for l2, d in graph.edges[n] if l2 == l):
+                        for c in nodes[d]['last']['choice']:
+                            by_key.setdefault((c[0], nodes[d]['last']['cmd']), []).append((n, l))
+                picked: dict = {}
+                for key in sorted(by_key):
+                    for pr in self.rng.sample(by_key[key], min(4, len(by_key[key]))):
+                        picked[pr] = True
+                rest = [pr for pr in pairs if pr not in picked]
+                extra = self.rng.sample(rest, max(0, min(len(rest), limit_pairs - len(picked))))
+                chosen_pairs = set(picked) | set(extra)
+                pairs = [pr for pr in pairs if pr in chosen_pairs]
+                stats['last_level_sampled'] = len(pairs)
             tasks = []
             for k, (n, l) in enumerate(pairs):
                 init, pre = route[n]
@@ -1108,7 +1151,7 @@ class Driver:
                 if r.get('dst') is not None:
                     dst = r['dst']
                     chosen[(n, l)] = dst
-                    obs_choices.update(tuple(c) for c in r['choice'])
+                    obs_choices.update((c[0], r['cmd'], c[1]) for c in r['choice'])
                     if dst not in route:
                         route[dst] = (route[n][0], route[n][1] + [(l, dst)])
                         nxt.append(dst)
@@ -1164,17 +1207,22 @@ def _graph(drv: Driver, profile: str, kw: bool, maxcmds: int):
 def _simulate(drv: Driver, kw: bool, policy: frozenset, num: int, depth_cmds: int, seed: int):
     """-> (behaviours, TLCResult, name).  The latitude constants are set to what the
     backend exhibited in the exhaustive part (a sub-model of the full model)."""
-    def res_of(point, default):
-        got = sorted({r for p_, r in policy if p_ == point})
-        return got or list(default)
-    oor, rec, akw = res_of('oor', BOTH), res_of('rec', BOTH), res_of('kw', ('keep', 'drop'))
-    tag = '-'.join('.'.join(x) for x in (oor, rec, akw))
-    cfg = drv.write_cfg(f's_{int(kw)}_{tag}_{num}.cfg', kw=kw, latoor=oor, latrec=rec,
-                        appendkw=akw, inits=['std', 'empty'], maxcmds=depth_cmds,
-                        maxuid=12, profile='full', twolevel=True, props=True)
+    def cmds(point, all_cmds, res):
+        # a (point, command) pair the exhaustive part never resolved keeps both resolutions
+        return [c for c in all_cmds
+                if (point, c, res) in policy
+                or not any(p_ == point and c_ == c for p_, c_, _ in policy)]
+    ol, os_ = cmds('oor', OOR_CMDS, 'lenient'), cmds('oor', OOR_CMDS, 'strict')
+    rl, rs = cmds('rec', REC_CMDS, 'lenient'), cmds('rec', REC_CMDS, 'strict')
+    akw = sorted({r for p_, _, r in policy if p_ == 'kw'}) or ['keep', 'drop']
+    tag = hashlib.sha1(repr((ol, os_, rl, rs, akw)).encode()).hexdigest()[:8]
+    cfg = drv.write_cfg(f's_{int(kw)}_{tag}_{num}.cfg', kw=kw, oor_lenient=ol, oor_strict=os_,
+                        rec_lenient=rl, rec_strict=rs, appendkw=akw, inits=['std', 'empty'],
+                        maxcmds=depth_cmds, maxuid=12, profile='full', twolevel=True, props=True)
     behs, res = tlc.simulate(SPEC, cfg, num=num, depth=2 * depth_cmds + 1, seed=seed,
                              timeout=1500)
-    name = f'RefMailbox -simulate kw={kw} LatOor={oor} LatRec={rec} AppendKw={akw} num={num}'
+    name = (f'RefMailbox -simulate kw={kw} num={num} OorLenient={ol} OorStrict={os_} '
+            f'RecLenient={rl} RecStrict={rs} AppendKw={akw}')
     return ([[(l, norm(s)) for l, s in beh if not l.startswith('Pick')] for beh in behs],
             res, name)
 
@@ -1265,7 +1313,7 @@ def main(tier: str) -> int:
         run.notes['per_backend'] = drv.stats
         run.notes['workers'] = drv.workers
         run.notes['latitude_resolutions_exhibited'] = {
-            b: sorted('%s:%s' % c for c in p) for b, p in drv.policy.items()}
+            b: sorted('%s:%s:%s' % c for c in p) for b, p in drv.policy.items()}
         run.cov['exhaustive'] = not quick and not any(
             s.get('budget_exhausted') for s in drv.stats.values())
         run.notes['exhaustive_scope'] = (
